@@ -294,8 +294,9 @@ def check_case(ctx, case, base, cls, do_clustering=False):
             problems += compare_tree(tag + " " + " ".join(args), out, realroot, fsm, used_plats, **kw)
         # (4) coverage export, once per platform
         dbs = sorted(os.listdir(os.path.join(base, "dbs"))) if os.path.isdir(os.path.join(base, "dbs")) else []
+        plat_of_db = {forest.dbname(pl): pl for pl in plats_conf}
         for dbn in dbs:
-            p = dbn[:-5]
+            p = plat_of_db.get(dbn, dbn[:-5])
             covp = os.path.join(base, "cov.json")
             rc, out, err = cli.run("cbi-cov", ["compute", "-S", realroot, "-o", covp, os.path.join(base, "dbs", dbn)], realroot)
             acc.hook("cli-runs")
